@@ -292,3 +292,16 @@ Fixpoint reference_epochs (seal pol : N) (vals : list (N * N)) (epoch : N) (Ds :
                else rs in
     (rs', bs', sealed) :: (if sealed then reference_epochs seal pol (next_vals pol vals epoch) (epoch + 1) rest else [])
   end.
+
+(* ================= 5. delivered events ================= *)
+(* each block delivers the ancestry of its Atropos minus what earlier blocks of the epoch delivered
+   (as ascending id lists; the order of delivery inside a block is not specified here) *)
+Fixpoint delivered_from (T : list node) (seen : list N) (bs : list (N * N)) : list (list N) :=
+  match bs with
+  | [] => []
+  | b :: r =>
+    let A := match nlookup (snd b) T with Some n => nd_anc n | None => [] end in
+    filter (fun x => negb (mem x seen)) A :: delivered_from T (umerge seen A) r
+  end.
+Definition delivered_spec (vals : list (N * N)) (D : list fev) : list (list N) :=
+  let T := fst (add_events vals [] D) in delivered_from T [] (r_blocks vals T).
